@@ -1,5 +1,5 @@
 #!/bin/bash
-# usage: tools/seed_checks.sh <seed-id> [props...]   (serial only: applies the change to /repo, runs the checks, undoes it)
+# usage: [TAG=first|now] tools/seed_checks.sh <seed-id> [props...]   (serial only: applies the change to /repo, runs the checks, undoes it)
 set -u
 ID=$1; shift
 PROPS=${*:-C01 C02 C03 C04 C05 C06 C07 C08 C09 C10 C11 C12 C13 C14 C15 C16 C17 C18 C19 C20}
@@ -7,7 +7,7 @@ D=/verif/seeded/$ID
 cd /verif
 [ -z "$(git -C /repo status --short)" ] || { echo "/repo not clean"; exit 2; }
 git -C /repo apply $D/patch.diff || { echo "PATCH DOES NOT APPLY TO /repo"; exit 2; }
-OUT=$D/.checks.txt; [ -f $D/.checks_first.txt ] || OUT=$D/.checks_first.txt
+OUT=$D/.checks_${TAG:-first}.txt
 : > $OUT
 for p in $PROPS; do
   ./check $p > /tmp/seed_out_$p.txt 2>&1; rc=$?
